@@ -709,6 +709,12 @@ def t_ensure_aw(E):
                             ev[0][1] == target if ev else False), props={'C17', 'C07'},
                      detail='wait_from_anywhere() runs the buffer\'s wait() through this: on the buffer\'s loop, once')
         E.oblige(Qn + '/ensures.loop_lock_released', z3.BoolVal(not st.get('held_loop_locks')))
+        if 'executor_used' in st:
+            ex = st['executor_used']
+            E.oblige(Qn + '/resource.idle_target_is_run_in_the_dedicated_cross_loop_pool',
+                     z3.BoolVal(isinstance(ex, Obj) and ex.cls == 'Executor' and bool(ex.fields.get('shared'))),
+                     detail='the caller loop\'s default executor may be shut down, tiny or busy: borrowing an idle '
+                            'loop must not depend on it (got %r)' % (ex,))
     E.run_paths(body)
 
 
